@@ -24,7 +24,9 @@ LEVEL = "exploration"
 RULE = (
     "escape attempts = receiver (probe objects reached through attribute/item/filter hops, class, function, bound "
     "method, generator, coroutine, async generator, code, frame, traceback, str/Markup/str subclass, containers, engine "
-    "objects: loop, self, macros, caller, namespace, undefined, globals, literals) x access primitive (dot, subscript "
+    "objects: loop, self, macros, caller, namespace, undefined, globals, literals, imported template modules and "
+    "imported macros) x access primitive (from-import of the name with an alias, in name lists, with/without context, "
+    "inside loop/macro/if/block scopes, dot, subscript "
     "with 8 computed-name spellings, attr filter, names supplied as data, attribute arguments of map/selectattr/"
     "rejectattr/sort/unique/min/max/sum/join/groupby incl. dotted, integer and comma paths and defaults, str.format/"
     "format_map/Markup.format/str-subclass field paths with index syntax, conversions and nested specs, called "
@@ -50,9 +52,11 @@ _exc = {}
 
 def _allowed():
     if not _exc:
-        from jinja2.exceptions import SecurityError, UndefinedError
+        from jinja2.exceptions import SecurityError, TemplateAssertionError, UndefinedError
 
-        _exc["ok"] = (SecurityError, UndefinedError)
+        # TemplateAssertionError: the engine refuses the template at compile time ("names starting with an underline
+        # can not be imported"), nothing is rendered
+        _exc["ok"] = (SecurityError, UndefinedError, TemplateAssertionError)
     return _exc["ok"]
 
 
@@ -78,14 +82,21 @@ def check_case(case):
     autoescape = case.get("autoescape", False)
     names = case.get("names", [])
     env = g.make_env(kind, is_async, autoescape)
-    _structure(env, src)
+    refused = None
+    try:
+        _structure(env, src)
+    except _allowed()[2] as e:  # TemplateAssertionError: refused at compile time, nothing to render
+        refused = e
 
     world = g.World(names)
     try:
-        try:
-            out, err = g.render(env, src, world.ctx), None
-        except Exception as e:  # noqa: BLE001 - judged below: only the sandbox's own refusals are allowed
-            out, err = "", e
+        if refused is not None:
+            out, err = "", refused
+        else:
+            try:
+                out, err = g.render(env, src, world.ctx), None
+            except Exception as e:  # noqa: BLE001 - judged below: only the sandbox's own refusals are allowed
+                out, err = "", e
         uses = list(world.log)
     finally:
         world.close()
@@ -96,7 +107,7 @@ def check_case(case):
         raise core.Violation("sentinel text of a private/internal attribute in the output %r%s" % (out[:300], where))
     if err is not None and not isinstance(err, _allowed()):
         raise core.Violation(
-            "outcome must be output, SecurityError or UndefinedError; got %s: %s%s" % (type(err).__name__, err, where)
+            "outcome must be output, SecurityError, UndefinedError or a compile-time TemplateAssertionError; got %s: %s%s" % (type(err).__name__, err, where)
         )
 
     # control: is the probe live?  (plain Environment, fresh world)
